@@ -1,6 +1,6 @@
 (** C03 - continuing from earlier weights equals learning everything in one pass. *)
 From Coq Require Import ZArith List Bool Ring.
-From PV Require Import Bytes BinFmt Store RWSpec RWExec RWProofs RWLaws.
+From PV Require Import Bytes BinFmt Store RWSpec RWExec RWProofs RWLaws Labels.
 Import ListNotations.
 
 (** the Rescorla-Wagner map of a concatenation is the composition *)
@@ -82,3 +82,17 @@ Theorem C03_labelling_irrelevant : forall R rO rI radd rmul rsub ropp,
                 learn R rO rI radd rmul rsub p es W o c.
 Proof. exact equivariance. Qed.
 Print Assumptions C03_labelling_irrelevant.
+
+(** the labelled matrix a continued parallel call builds (old labels first, new
+    labels appended in any order, zero blocks below and to the right) is, read
+    through its labels, the matrix it was handed - for every pair of names *)
+Theorem C03_zero_extension : forall (R : Type) (rO : R) (m : lmatrix R) new_o new_c o c,
+  view R rO (extend R rO m new_o new_c) o c = view R rO m o c.
+Proof. exact extend_view. Qed.
+Print Assumptions C03_zero_extension.
+
+(** ... and the positions it hands to the kernel are an injective numbering of the labels *)
+Theorem C03_label_positions_injective : forall l x y i,
+  index_of x l = Some i -> index_of y l = Some i -> x = y.
+Proof. exact index_of_injective. Qed.
+Print Assumptions C03_label_positions_injective.
